@@ -169,6 +169,7 @@ type World struct {
 	VW      *vnet.World
 	Target  *world.Target
 	UDPTgt  *vnet.UDPConn
+	udpInbox []vnet.Datagram // everything the UDP target has received (probes may run concurrently: none may take another's datagram)
 	nclient int
 }
 
@@ -326,12 +327,14 @@ func (w *World) ProbeUDPFrom(l Listener, k Key, seed uint64, ip string) ProbeRes
 	nev := len(w.M.UDP.Events)
 	msg := []byte(fmt.Sprintf("dgram-%d", seed))
 	pkt := world.PackUDP(key, seed, append(world.Addr(TargetUDP), msg...))
-	w.UDPTgt.Drain()
+	w.udpInbox = append(w.udpInbox, w.UDPTgt.Drain()...)
+	start := len(w.udpInbox) // what the target received before this probe is not this probe's
 	sock.SendRaw(pkt, world.UDPAddr(l.DialAddr()))
 	vrt.WaitIdle()
 	var res ProbeResult
-	for _, d := range w.UDPTgt.Drain() {
-		if string(d.Data) == string(msg) {
+	w.udpInbox = append(w.udpInbox, w.UDPTgt.Drain()...)
+	for _, d := range w.udpInbox[start:] {
+		if string(d.Data) == string(msg) && !res.Forwarded {
 			// the target answers; the answer must come back to the client under the same key
 			w.UDPTgt.SendRaw([]byte("answer:"+string(msg)), d.From)
 			vrt.WaitIdle()
